@@ -20,7 +20,8 @@ RULE = (
     "One cell per shape class. A case = parameters in the class's canonical frame (radii 0.1..10, lengths, sweep "
     "angles 10..170 deg, 3..12 segments, 3..6 branches) + a rigid placement (general rotation axis and angle, offset "
     "up to 10; 1 in 6 axis-aligned) + a set of chops (counts 1..7, or start sizes) + in half of the cases a second "
-    "rigid motion applied to the built entity with the library's rotate / translate. The defining points are mapped "
+    "motion applied to the built entity with the library's rotate / scale (0.3..3, half of them) / translate; in the "
+    "chain cells also to the start shape before anything is chained to it. The defining points are mapped "
     "to the world by the harness (Rodrigues) and handed to the constructor, so the expected circles, block and "
     "vertex counts are known independently. Chains: a start shape and up to three chain / expand / contract / fill / "
     "Hemisphere.chain steps drawn from a symbolic model of free ends. Non-trivial: placement not axis-aligned (chains: "
@@ -41,8 +42,9 @@ ASSUMPTIONS = [
     "size-chop-conflict)",
     "Grid sketches, single operations and Shell have no documented shape-level chop set: their write is attempted with "
     "harness-chosen chops and a failure is only labelled",
-    "moving a built entity with rotate(angle, axis, origin) / translate is a valid way to reach a placement; the expected "
-    "circles, axes of revolution and interfaces are mapped with the same rigid map built from Rodrigues' formula",
+    "moving and resizing a built entity with rotate(angle, axis, origin) / scale(ratio, origin) / translate is a valid way "
+    "to reach a placement and size; the expected circles, radii, axes of revolution and interfaces are mapped with the "
+    "same similarity built from vf.refmodel (m_rotate, m_scale, m_translate)",
     "side edges of RevolvedShape / RevolvedStack / Revolve are outer arcs too: a vertex and its image under the "
     "revolution must be joined by an arc about the axis of revolution (same tolerance as the circles)",
     "chained shapes: the interface is the set of source vertices lying on the interface plane / cylinder computed by "
@@ -126,6 +128,8 @@ def run_spec(case, ctx: Ctx, build) -> None:
     ctx.nt(xs.is_general(case["place"]))
     ctx.label("general" if xs.is_general(case["place"]) else "aligned", "chops:" + case["chops"]["mode"])
     ctx.label("moved-after-construction" if post is not None else "as-constructed")
+    if post is not None:
+        ctx.label("post-scaled" if post.get("scale") else "post-rigid")
     ctx.label(f"far-ratio={xs.far_ratio(case):.0e}" if xs.far_ratio(case) else "near-origin")
     ctx.label("minJ<0.03" if worst < 0.03 else "minJ<0.1" if worst < 0.1 else "minJ>=0.1")
     for lb in spec.extra.get("labels", []):
@@ -460,6 +464,15 @@ class Tracked:
     def n_blocks(self) -> int:
         return {"solid": SOLID_BLOCKS, "ring": self.n_seg, "hemi": HEMI_BLOCKS}[self.kind]
 
+    def moved(self, post) -> None:
+        """the library shape is rotated / scaled / translated; the tracked geometry follows by the same similarity"""
+        xs.move_entity(self.lib, post)
+        P, k = xs.post_matrix(post), xs.post_scale(post)
+        self.c1, self.n1, self.r1 = rm.apply(P, self.c1), rm.unit(rm.apply_dir(P, self.n1)), self.r1 * k
+        self.c2, self.n2, self.r2 = rm.apply(P, self.c2), rm.unit(rm.apply_dir(P, self.n2)), self.r2 * k
+        if self.ri is not None:
+            self.ri *= k
+
 
 def in_plane_dir(n: np.ndarray, psi: float) -> np.ndarray:
     a = np.cross(n, X if abs(n[0]) < 0.9 else Y)
@@ -495,6 +508,9 @@ def build_chain(case):
         c2 = c1 + n * L
         ri = st_["inner"] * r
         first = Tracked(cb.ExtrudedRing(c1, c2, rp, ri, st_["n"]), "ring", c1, n, r, c2, n, r, ri, st_["n"])
+    if case.get("pre") is not None:
+        # the start shape is moved and resized before anything is chained to it
+        first.moved(case["pre"])
     shapes = [first]
     interfaces = []
     for step in case["steps"]:
@@ -563,7 +579,8 @@ def check_chain(case, ctx: Ctx) -> None:
         except Exception as ex:  # noqa: BLE001
             raise Violation("transform-failed", f"{type(ex).__name__}: {str(ex)[:200]}", **facts) from None
         for itf in interfaces:
-            itf["c"], itf["n"] = rm.apply(P, itf["c"]), rm.apply_dir(P, itf["n"])
+            itf["c"], itf["n"] = rm.apply(P, itf["c"]), rm.unit(rm.apply_dir(P, itf["n"]))
+            itf["r"] *= xs.post_scale(post)
     mesh = cb.Mesh()
     for sh in shapes:
         mesh.add(sh.lib)
@@ -624,6 +641,9 @@ def check_chain(case, ctx: Ctx) -> None:
             )
     general = xs.is_general(case["place"])
     ctx.nt(general and len(shapes) >= 2)
+    for key in ("pre", "post"):
+        if case.get(key) is not None:
+            ctx.label(f"{key}-moved", f"{key}-scaled" if case[key].get("scale") else f"{key}-rigid")
     ctx.label(f"shapes={len(shapes)}", "general" if general else "aligned",
               "moved-after-construction" if post is not None else "as-constructed",
               f"far-ratio={xs.far_ratio(case):.0e}" if xs.far_ratio(case) else "near-origin")
@@ -633,7 +653,8 @@ def check_chain(case, ctx: Ctx) -> None:
 
 def chain_strategy(start_kinds, witness=False):
     return st.tuples(chain_cases(start_kinds, witness), xs.placements(), xs.post_transforms(), xs.far_offsets(),
-                     xs.far_offsets()).map(lambda t: xs.settle_far({**t[0], "place": t[1], "post": t[2]}, t[3], t[4]))
+                     xs.far_offsets(), xs.post_transforms(resize_mostly=True)).map(
+        lambda t: xs.settle_far({**t[0], "place": t[1], "post": t[2], "pre": t[5]}, t[3], t[4]))
 
 
 # --------------------------------------------------------------------------------------------------
